@@ -15,6 +15,7 @@ The global `dask.config.config` is never touched: every call passes `config=`.
 from __future__ import annotations
 
 import ast
+import re
 
 from sexp import Sym
 
@@ -1055,9 +1056,147 @@ def case_ndspec(ctx, inp):
             ctx.branch("nd-scalar-meets-mapping")
 
 
+# ------------------------------------------------------------------------------------------------------------
+# extension round: interpret_value / repr on the modelled literal grammar (lean/DaskModel/Model/ConfigInterp.lean)
+# ------------------------------------------------------------------------------------------------------------
+def _lit_from_json(j):
+    """case input (JSON) -> Python literal value: ["i",n] ["f",x] ["b",x] ["n"] ["s",text] ["l",[…]] ["d",[[k,v],…]]"""
+    t = j[0]
+    if t in ("i", "f", "b", "s"):
+        return j[1]
+    if t == "n":
+        return None
+    if t == "l":
+        return [_lit_from_json(x) for x in j[1]]
+    if t == "d":
+        return {_lit_from_json(k): _lit_from_json(v) for k, v in j[1]}
+    raise ValueError(j)
+
+
+def _lit_wire(v):
+    """Python value -> the model's wire form; None if the value is outside the modelled class"""
+    if v is None:
+        return [Sym("n")]
+    if isinstance(v, bool):
+        return [Sym("b"), v]
+    if isinstance(v, int):
+        return [Sym("i"), v]
+    if isinstance(v, float):
+        m = re.fullmatch(r"(-?)([0-9]+)\.([0-9]+)", repr(v))
+        return [Sym("f"), bool(m.group(1)), m.group(2), m.group(3)] if m else None
+    if isinstance(v, str):
+        ok = all(32 <= ord(c) < 127 and c != "\\" for c in v) and not ("'" in v and '"' in v)
+        return [Sym("s"), v] if ok else None
+    if isinstance(v, list):
+        ws = [_lit_wire(x) for x in v]
+        return None if any(w is None for w in ws) else [Sym("l"), ws]
+    if isinstance(v, dict):
+        ws = [[_lit_wire(k), _lit_wire(x)] for k, x in v.items()]
+        return None if any(a is None or b is None for a, b in ws) else [Sym("d"), ws]
+    return None
+
+
+def _lit_matches(w, real):
+    """does the model's literal `w` (wire) denote the Python object `real`? types compared strictly; a float literal is
+    the model's TEXT, its value is Python's float(text)"""
+    t = str(w[0])
+    if t == "n":
+        return real is None
+    if t == "b":
+        return real is w[1]
+    if t == "i":
+        return type(real) is int and real == w[1]
+    if t == "f":
+        return type(real) is float and repr(float(("-" if w[1] is True else "") + w[2] + "." + w[3])) == repr(real)
+    if t == "s":
+        return type(real) is str and real == w[1]
+    if t == "l":
+        return type(real) is list and len(real) == len(w[1]) and all(_lit_matches(a, b) for a, b in zip(w[1], real))
+    if t == "d":
+        return type(real) is dict and len(real) == len(w[1]) and \
+            all(_lit_matches(k, rk) and _lit_matches(x, rv) for (k, x), (rk, rv) in zip(w[1], real.items()))
+    return False
+
+
+def _same_value(a, b):
+    """type-strict deep equality of Python literal values"""
+    if type(a) is not type(b):
+        return False
+    if isinstance(a, (list, tuple)):
+        return len(a) == len(b) and all(_same_value(x, y) for x, y in zip(a, b))
+    if isinstance(a, dict):
+        return len(a) == len(b) and all(_same_value(k1, k2) and _same_value(v1, v2)
+                                        for (k1, v1), (k2, v2) in zip(a.items(), b.items()))
+    if isinstance(a, float):
+        return repr(a) == repr(b)
+    return a == b
+
+
+def case_interp(ctx, inp):
+    """function level: interpret_value(text) vs the model wherever the model claims to apply (`inScope`), and repr(v) vs
+    `reprLit`; oracles: the documented rule (literal_eval, then the hard-coded words, else the string itself) on every
+    text, and interpret_value(repr(v)) == v for generated literal values"""
+    import warnings
+    import dask.config as dc
+    if "value" in inp:
+        v = _lit_from_json(inp["value"])
+        text = repr(v)
+        w = _lit_wire(v)
+        if w is None:
+            raise AssertionError(("generator produced a value outside the modelled class", inp))
+        ctx.eq("repr(v) vs reprLit", ctx.lean(Sym("iv-repr"), w), text)
+        with warnings.catch_warnings():
+            warnings.simplefilter("ignore")
+            back = dc.interpret_value(text)
+        if not _same_value(back, v):
+            ctx.fail("interpret_value(repr(v)) != v", observed=repr(back), expected=text)
+        nested = isinstance(v, (list, dict)) and any(isinstance(x, (list, dict)) for x in (v if isinstance(v, list) else v.values()))
+        ctx.branch("iv-roundtrip" + ("-nested" if nested else ""))
+    else:
+        text = inp["text"]
+    try:
+        with warnings.catch_warnings():
+            warnings.simplefilter("ignore")          # "invalid decimal literal" SyntaxWarning on texts like `1if`
+            real = dc.interpret_value(text)
+    except TypeError as e:
+        # literal_eval builds the dict/set itself: an unhashable key ("{[1]: 2}") escapes interpret_value as TypeError.
+        # Outside the statement (and outside the model's scope: keys are strings / ints); recorded, not judged.
+        ctx.branch("iv-unhashable-key-TypeError-escapes")
+        if all(32 <= ord(c) < 127 or c == "\t" for c in text):
+            scope, _m = ctx.lean(Sym("iv-interp"), text)
+            if scope is True:
+                ctx.disagree("interpret_value raised TypeError on a text the model claims", "in scope", repr(e))
+        return
+    with warnings.catch_warnings():
+        warnings.simplefilter("ignore")
+        ref = _interpret_reference(text)
+    if not _same_value(real, ref) and not (type(real) is type(ref) and isinstance(real, (set, frozenset, complex, bytes, type(...)))
+                                           and real == ref):
+        ctx.fail("interpret_value does not follow its documented rule", observed=[text, repr(real)], expected=repr(ref))
+    if not all(32 <= ord(c) < 127 or c == "\t" for c in text):
+        ctx.branch("iv-non-ascii-or-control-oracle-only")
+        return
+    scope, m = ctx.lean(Sym("iv-interp"), text)
+    if scope is not True:
+        ctx.branch("iv-unmodelled-oracle-only")
+        return
+    if str(m[0]) == "raw":
+        ok = type(real) is str and real == text and m[1] == text
+        ctx.branch("iv-identity")
+    else:
+        ok = _lit_matches(m[1], real)
+        ctx.branch("iv-literal-" + str(m[1][0]))
+        if text.lower() in ("true", "false", "none", "null") and text not in ("True", "False", "None"):
+            ctx.branch("iv-hardcoded-word-any-case")
+        if text != text.strip() or text != repr(real):
+            ctx.branch("iv-literal-not-in-repr-form")
+    if not ok:
+        ctx.disagree("interpret_value", m, repr(real))
+
+
 CASES = {"set": case_set, "prog": case_prog, "get": case_get, "update": case_update, "merge": case_merge,
          "env": case_env, "glue": case_glue, "alias": case_alias, "hist": case_hist, "depr": case_depr,
-         "files": case_files, "expand": case_expand, "ndspec": case_ndspec}
+         "files": case_files, "expand": case_expand, "ndspec": case_ndspec, "interp": case_interp}
 
 # ------------------------------------------------------------------------------------------------------------
 # generators
@@ -1282,6 +1421,88 @@ def _directed_nd():
     yield "ndspec", {"old": {"a": {"x": 1}}, "new": {"a": {"x": 2}}, "defaults": {"a": 0}}      # falsy scalar: no defaults below
 
 
+IV_CHARS = "abcxyzABZ019 _-./:,;[]{}()#=+*<>!?@$%^&~|`"
+
+
+def _gen_lit(rng, depth):
+    r = rng.random()
+    if depth > 0 and r < 0.3:
+        return ["l", [_gen_lit(rng, depth - 1) for _ in range(rng.choice([0, 1, 1, 2, 3, 4]))]]
+    if depth > 0 and r < 0.5:
+        pairs, seen = [], set()
+        for _ in range(rng.choice([0, 1, 2, 3])):
+            k = ["s", "".join(rng.choice("abk-_ .") for _ in range(rng.randint(0, 3)))] if rng.random() < 0.7 \
+                else ["i", rng.randint(-3, 12)]
+            if (k[0], k[1]) in seen:
+                continue
+            seen.add((k[0], k[1]))
+            pairs.append([k, _gen_lit(rng, depth - 1)])
+        return ["d", pairs]
+    if r < 0.62:
+        return ["i", rng.choice([0, 1, -1, 7, 10, 100, -250, 4096, 10 ** 20 + 7, -(10 ** 18), rng.randint(-10 ** 6, 10 ** 6)])]
+    if r < 0.72:
+        x = rng.choice([0.0, -0.0, 0.5, 1.25, -3.0, 100.125, 0.1, 2.75, -0.001, 1234567.875,
+                        round(rng.uniform(-1000, 1000), rng.randint(1, 4))])
+        return ["f", x] if re.fullmatch(r"-?[0-9]+\.[0-9]+", repr(x)) else ["f", 0.5]
+    if r < 0.8:
+        return ["b", rng.random() < 0.5]
+    if r < 0.86:
+        return ["n"]
+    t = "".join(rng.choice(IV_CHARS + "'\"") for _ in range(rng.choice([0, 1, 2, 3, 5, 8])))
+    if "'" in t and '"' in t:
+        t = t.replace('"', "q")
+    return ["s", t]
+
+
+def _respace(rng, text):
+    """the same literal with blanks / tabs / trailing commas where Python allows them (never inside quotes)"""
+    out, q = [], None
+    for i, c in enumerate(text):
+        if q:
+            out.append(c)
+            if c == q:
+                q = None
+            continue
+        if c in "'\"":
+            q = c
+            out.append(c)
+        elif c in "[{" and rng.random() < 0.3:
+            out.append(c + rng.choice([" ", "  ", "\t"]))
+        elif c in "]}" and rng.random() < 0.3:
+            prev = text[i - 1]
+            out.append((", " if prev not in "[{" and rng.random() < 0.4 else rng.choice([" ", ""])) + c)
+        elif c == ":" and rng.random() < 0.4:
+            out.append(rng.choice([" :", ":", " : "]))
+        elif c == "," and rng.random() < 0.4:
+            out.append(rng.choice([" ,", ",", " , "]))
+        elif c == " " and rng.random() < 0.3:
+            out.append(rng.choice(["", "  ", "\t"]))
+        else:
+            out.append(c)
+    t = "".join(out)
+    if rng.random() < 0.3:
+        t = rng.choice([" ", "  ", "\t"]) + t
+    if rng.random() < 0.3:
+        t = t + rng.choice([" ", "  ", "\t"])
+    return t
+
+
+IV_TEXTS = ["123", "1.5", "true", "False", "None", "null", "hello", "[1, 2]", "{'a': 1}", "'quoted'", "", "a b", "TRUE", "1e3",
+            "(1, 2)", "foo.bar", "NONE", "nUlL", "FALSE", "none ", " none", "0", "-1", "1_000", "0x10", "tRuE", "007", "00", "-0",
+            "- 1", "--1", "+1", "1.", ".5", "1.50", "-0.0", "1j", "...", "set()", "{1, 2}", "b'x'", "r'x'", "'a' 'b'", "'''a'''",
+            "''", "''''''", "1 # c", "[1, 2", "[1 2]", "[,]", "[1,]", "[1,,2]", "{1:2,}", "{1: 2, 1: 3}", "{True: 1}", "{1: 2, True: 3}",
+            "{[1]: 2}", "{{}}", "'a\\n'", "'it\\'s'", "\"it's\"", "'say \"hi\"'", "tcp://host:8786", "/path/to/file", "a-b", "a_b",
+            "a.b.c", "x/y", "lambda: 1", "not 1", "a if b else c", "None if a else b", "True.real", "Truex", "True_", "None1",
+            "True False", "[True, False, None]", "[true]", "{'a': {'b': [1, {'c': None}]}}", "1 2", "1,2", "1, 2", "[1], [2]",
+            "yes", "no", "on", "off", "inf", "nan", "1e-5", "1E5", "0.5.1", "1..2", "1.a", "1a", "'unterminated", "é", "a\nb", " ",
+            "\t", "[ ]", "{ }", "[ 1 , 2 ]", "{ 'k' : 'v' }", "0b11", "0o7", "9" * 30, "-" + "9" * 25, "1.0" + "0" * 20, "_", "_1",
+            "__debug__", "Ellipsis", "print", "if", "e10", "a:b", "a: b", "a..b", "a-.5", "f'x'", "rb", "10 ** 2", "-(1)", "(1)",
+            "[1, (2, 3)]", "[[[[[[[[1]]]]]]]]", "{'a': 1, 'a': 2}", "{'a': 1, \"a\": 2}", "{1: 'x', 1.0: 'y'}", "{None: 1}",
+            "True ", " True", "\tNone", "[None,None]", "['a','b']", "{'a':1,'b':2}", "[-1, -2.5]", "[- 1]", "['[', ']', ',']",
+            "{'{': '}', ':': ','}", "[\"'\"]", "['\"']", "[1, 'a' 'b']", "[1.5e3]", "[0x1]", "[1]]", "[[1]", "{'a': }", "{: 1}",
+            "{'a' 1}", "{'a': 1 'b': 2}", "a - 1", "A", "T", "Tru", "Non", "none1", "true.", "x y z", "abc:def/ghi.jkl-mno_pqr"]
+
+
 def generate(ctx):
     from props._stores_util import ensure_budget
     ensure_budget(ctx, quick_scale=2.0)
@@ -1332,6 +1553,27 @@ def generate(ctx):
             if rng.random() < 0.5:
                 _overlay(dflt, old, rng)
         yield "update", {"old": old, "new": new, "priority": prio, "defaults": dflt}
+    for t in IV_TEXTS:
+        yield "interp", {"text": t}
+    for _ in range(ctx.n(250, 3000)):
+        v = _gen_lit(rng, rng.choice([0, 1, 2, 2, 3, 4]))
+        yield "interp", {"value": v}
+        if rng.random() < 0.6:
+            yield "interp", {"text": _respace(rng, repr(_lit_from_json(v)))}
+        if rng.random() < 0.35:
+            t = repr(_lit_from_json(v))
+            i = rng.randrange(len(t) + 1)
+            yield "interp", {"text": t[:i] + rng.choice(["", rng.choice(IV_CHARS + "'\"")]) + t[i + rng.choice([0, 1]):]}
+    for _ in range(ctx.n(150, 1500)):
+        r = rng.random()
+        if r < 0.3:
+            w = rng.choice(["true", "false", "none", "null", "True", "None", "nil", "yes", "truee"])
+            t = "".join(c.upper() if rng.random() < 0.4 else c for c in w)
+        elif r < 0.75:
+            t = rng.choice("abcxyzTFN_") + "".join(rng.choice("abcrue019_-./: ") for _ in range(rng.randint(0, 10)))
+        else:
+            t = "".join(rng.choice(IV_CHARS + "'\"\\") for _ in range(rng.randint(1, 8)))
+        yield "interp", {"text": t}
     yield from _directed_nd()
     for _ in range(ctx.n(250, 3000)):
         yield "ndspec", _gen_nd(rng)
